@@ -186,8 +186,9 @@ def gen_discrete():
         w = [draw(st.sampled_from([0.0, 1e-4, 0.05, 1.0, 1.0, 2.0, 5.0])) for _ in range(k)]
         if sum(1 for x in w if x > 0) < 2:
             w[0], w[-1] = 1.0, 2.0
-        outcomes = sorted(draw(st.lists(st.integers(-3, 6), min_size=k, max_size=k, unique=True)))
-        return {"prior": prior, "w": w, "outcomes": [float(o) for o in outcomes], "path": draw(st.sampled_from(["none", "direct", "calc", "named_var", "two_level"])),
+        grid = [-1.5, -1.0, 0.0, 0.5, 1.0, 1.5, 2.0, 2.5, 3.0, 4.0]
+        outcomes = sorted(draw(st.lists(st.sampled_from(grid), min_size=k, max_size=k, unique=True)))
+        return {"prior": prior, "w": w, "outcomes": [float(o) for o in outcomes], "int_init": draw(st.booleans()), "path": draw(st.sampled_from(["none", "direct", "calc", "named_var", "two_level"])),
                 "explicit_outcomes": draw(st.booleans()), "n": draw(st.integers(1, 4)), "seed": draw(st.integers(0, 10**6)), "case_seed": draw(st.integers(0, 2**30)),
                 "scale": draw(st.sampled_from([0.7, 1.5, 4.0])), "z0": draw(st.integers(0, 5))}
 
@@ -207,7 +208,10 @@ def make_discrete_model(c):
     else:
         outcomes = np.array(c["outcomes"])
         prior = lsl.Dist(tfd.FiniteDiscrete, outcomes=outcomes.astype(np.float32), probs=probs.astype(np.float32))
-        z = lsl.param(np.float32(outcomes[c["z0"] % len(outcomes)]), prior, name="z")
+        z_init = outcomes[c["z0"] % len(outcomes)]
+        # the current value may be integer-typed although the outcome grid is not (e.g. value=1 on the grid 0.5, 1, 1.5)
+        z_val = np.int32(z_init) if (c.get("int_init") and float(z_init).is_integer()) else np.float32(z_init)
+        z = lsl.param(z_val, prior, name="z")
     y = rng.normal(size=c["n"]).astype(np.float32) + 1.0
     sc = np.float32(c["scale"])
     path = c["path"]
@@ -215,7 +219,8 @@ def make_discrete_model(c):
         roots = [z]
     elif path == "direct":
         # (an integer-valued Bernoulli variable cannot feed a float parameter directly: TFP rejects mixed dtypes)
-        loc = z if c["prior"] != "bernoulli" else lsl.Calc(lambda v: jnp.asarray(v, dtype=jnp.float32), z)
+        int_typed = c["prior"] == "bernoulli" or c.get("int_init")
+        loc = z if not int_typed else lsl.Calc(lambda v: jnp.asarray(v, dtype=jnp.float32), z)
         roots = [lsl.obs(y, lsl.Dist(tfd.Normal, loc=loc, scale=sc), name="y")]
     elif path == "calc":
         roots = [lsl.obs(y, lsl.Dist(tfd.Normal, loc=lsl.Calc(lambda v: 0.5 * jnp.asarray(v, dtype=jnp.float32) - 0.25, z), scale=sc), name="y")]
@@ -233,8 +238,9 @@ def make_discrete_model(c):
 def oracle_discrete(c):
     det = lambda: f"{c}"  # noqa: E731
     model, outcomes, probs = make_discrete_model(c)
-    zdt = np.asarray(model.vars["z"].value).dtype
-    explicit = c["explicit_outcomes"] or c["prior"] == "bernoulli" and False
+    # outcomes keep their own dtype (a float grid stays a float grid even if the current value happens to be integer-typed)
+    zdt = np.int32 if c["prior"] == "bernoulli" else np.float32
+    explicit = c["explicit_outcomes"]
     kernel = finite_discrete_gibbs_kernel("z", model, outcomes=list(outcomes.astype(zdt)) if explicit else None)
     iface = gs.LieselInterface(model)
     kernel.set_model(iface)
